@@ -379,6 +379,12 @@ static void child_main(const Case &c, int me, int report_fd, int (*pp)[MAXN][2],
 			+ " s=" + sj + " sp=" + spj + " C=" + cs + " a=" + zs(V.a_i) + " hata=" + zs(V.hata_i)
 			+ " lastC=" + std::to_string(cx.last_commit_ev) + " open=" + std::to_string(cx.open_ev) + " missing=" + cx.missing + cx.coin_text);
 		barrier(cx, 1);
+		if (getenv("JL_TWICE")) {   // probe (not modelled): a second flip by the same objects, everybody honest
+			Z a2(-1L);
+			bool r2 = edcf.Flip((size_t)me, a2, u, rbc, err, false);
+			cx.report(std::string("second ret=") + (r2 ? "1" : "0") + " coin=" + a2.str());
+			barrier(cx, 2);
+		}
 		if (getenv("JL_ERRDIR")) std::cerr << err.str();
 	} catch (std::exception &e) {
 		cx.report(std::string("exc what=") + e.what());
@@ -459,6 +465,7 @@ static std::string run_case(const Case &c, double limit_s)
 		prop += " P" + std::to_string(i) + ":" + get(s, "ret") + "|" + get(s, "coin") + "|" + get(s, "Qual") + "|" + get(s, "s") + "|" + get(s, "sp") + "|" + get(s, "C")
 			+ "|" + get(s, "a") + "|" + get(s, "hata") + "|" + get(s, "lastC") + "|" + get(s, "open") + "|" + get(s, "missing");
 	}
+	if (getenv("JL_TWICE")) { prop += " second:"; for (int i = 0; i < c.n; i++) { const KV *s2 = find(i, "second"); prop += (i ? "," : "") + get(s2, "ret") + "|" + get(s2, "coin"); } }
 	std::string lines = "jl.flip " + std::to_string(c.n) + " " + std::to_string(c.t) + " " + pqgh + in + " tag:" + c.tag + " =>" + out + crash;
 	lines += "\nprop.jl.flip seed=" + std::to_string(c.seed) + " case=" + std::to_string(c.idx) + " n=" + std::to_string(c.n) + " t=" + std::to_string(c.t)
 		+ " " + pqgh + " honest=" + honest + " tag:" + c.tag + " =>" + prop + crash;
